@@ -20,6 +20,7 @@
 #include <stdlib.h>
 #include <string.h>
 #include <sys/stat.h>
+#include <time.h>
 #include <unistd.h>
 
 size_t __sanitizer_get_current_allocated_bytes(void);
@@ -151,12 +152,12 @@ static int slot(const char* s, int max)
 }
 
 /* ---------- compiler callbacks ---------- */
-typedef struct { int errors, warnings; int first; } DIAG;
+typedef struct { int errors, warnings; int first; int first_code; YR_COMPILER* comp; } DIAG;
 
 static void compiler_cb(int level, const char* file, int line, const YR_RULE* rule, const char* msg, void* ud)
 {
   DIAG* d = (DIAG*) ud;
-  if (level == YARA_ERROR_LEVEL_ERROR) d->errors++; else d->warnings++;
+  if (level == YARA_ERROR_LEVEL_ERROR) { if (d->errors == 0 && d->comp) d->first_code = d->comp->last_error; d->errors++; } else d->warnings++;
   fprintf(out, "%s{\"lvl\":%s,\"line\":%d,\"file\":", d->first ? "" : ",",
           level == YARA_ERROR_LEVEL_ERROR ? "\"error\"" : "\"warning\"", line);
   jcstr(file);
@@ -735,7 +736,7 @@ int main(int argc, char** argv)
         continue;
       }
       BLOB src = unhex(tok[3]);
-      DIAG d = {0, 0, 1};
+      DIAG d = {0, 0, 1, 0, compilers[c]};
       fprintf(out, "{\"e\":\"Compile\",\"cid\":%d,\"via\":\"%s\",\"ns\":", c, op);
       jcstr(ns);
       fprintf(out, ",\"srclen\":%zu,\"diag\":[", src.n);
@@ -752,7 +753,7 @@ int main(int argc, char** argv)
         else { int fd = open(path, O_RDONLY); r = yr_compiler_add_fd(compilers[c], fd, ns, path); close(fd); }
         unlink(path);
       }
-      fprintf(out, "],\"ret\":%d,\"errors\":%d,\"warnings\":%d}\n", r, d.errors, d.warnings);
+      fprintf(out, "],\"ret\":%d,\"errors\":%d,\"warnings\":%d,\"code\":%d}\n", r, d.errors, d.warnings, r > 0 ? (d.first_code ? d.first_code : compilers[c]->last_error) : 0);
       free(src.p);
     }
     else if (!strcmp(op, "getrules"))
@@ -954,6 +955,8 @@ int main(int argc, char** argv)
       fprintf(out, "{\"e\":\"ScanCall\",\"sid\":%d,\"did\":%d,\"len\":%zu,\"mode\":\"%s\",\"blocks\":\"%s\",\"nr\":\"%s\",\"plan\":\"%s\",\"flags\":%d,\"tag\":\"%s\"}\n",
               s, d, datas[d].n, mode, tok[4], tok[5], tok[6], sc->flags, tag);
       int r = -1, calls = 0;
+      struct timespec t0, t1;
+      clock_gettime(CLOCK_MONOTONIC, &t0);
       if (!strcmp(mode, "mem")) { r = yr_scanner_scan_mem(sc, datas[d].p, datas[d].n); calls = 1; }
       else if (!strcmp(mode, "file")) { r = yr_scanner_scan_file(sc, data_to_file(d)); calls = 1; }
       else if (!strcmp(mode, "fd"))
@@ -986,7 +989,9 @@ int main(int argc, char** argv)
           }
         } while (r == ERROR_BLOCK_NOT_READY && calls < maxcalls);
       }
-      fprintf(out, "{\"e\":\"ScanRet\",\"sid\":%d,\"ret\":%d,\"calls\":%d,\"ncb\":%d,\"entry_point\":", s, r, calls, cb.cb_count);
+      clock_gettime(CLOCK_MONOTONIC, &t1);
+      fprintf(out, "{\"e\":\"ScanRet\",\"sid\":%d,\"ret\":%d,\"calls\":%d,\"ncb\":%d,\"ms\":%ld,\"entry_point\":", s, r, calls, cb.cb_count,
+              (long) ((t1.tv_sec - t0.tv_sec) * 1000 + (t1.tv_nsec - t0.tv_nsec) / 1000000));
       j_u64_or_undef(sc->entry_point);
       fputs(",\"file_size\":", out);
       j_u64_or_undef(sc->file_size);
